@@ -152,6 +152,24 @@ func (fv *FuncVerifier) libModel(st *State, full string, fn *types.Func, recv *V
 		tv := fv.havocVal(st, "tadd", t)
 		fv.assume(st, "(= (time.inst "+tv.T+") (+ (time.inst "+recv.T+") "+a[0].T+"))")
 		return []Val{tv}, true
+	case "fmt.Fprint":
+		// token model: Fprint(w, x) with one integer argument appends a Num token
+		if _, ok := st.ghost["ntok"]; ok && len(e.Args) == 2 {
+			if at := fv.typeOf(e.Args[1]); at != nil && isInteger(at) {
+				a := args()
+				fv.assumedLib("fmt.Fprint(w, x) for an integer x writes its decimal form (token Num)")
+				n := st.ghost["ntok"].T
+				st.ghost["tokK"] = Val{T: "(store " + st.ghost["tokK"].T + " " + n + " 3)", Sort: "(Array Int Int)"}
+				st.ghost["tokN"] = Val{T: "(store " + st.ghost["tokN"].T + " " + n + " " + a[1].T + ")", Sort: "(Array Int Int)"}
+				st.ghost["ntok"] = Val{T: "(+ " + n + " 1)", Sort: "Int"}
+				var out []Val
+				for _, rt := range resultTypes(fn.Type().(*types.Signature)) {
+					out = append(out, fv.havocVal(st, "fpr", rt))
+				}
+				return out, true
+			}
+		}
+		return nil, false
 	case "fmt.Fprintf":
 		// text codec token model: Fprintf(w, "%d", x) appends a Num token (only when the token ghosts exist)
 		if _, ok := st.ghost["ntok"]; ok && len(e.Args) == 3 {
